@@ -1,0 +1,163 @@
+//go:build verif
+
+// Contracts for govc (contract-based deductive verification); comments only.
+package pod_info
+
+// C10 (pods bullet): the scheduler's view of a pod's status is total on every API state: every
+// phase string (also unknown / empty ones) maps to one of the declared statuses, without panic.
+//@ define taskStatusOf(pod *v1.Pod, hasBR bool) int = ite(pod.Status.Phase == v1.PodRunning, ite(pod.DeletionTimestamp != nil, pod_status.Releasing, pod_status.Running),
+//@      ite(pod.Status.Phase == v1.PodPending, ite(pod.DeletionTimestamp != nil, pod_status.Releasing, ite(len(pod.Spec.NodeName) != 0, pod_status.Bound, ite(hasBR, pod_status.Binding, ite(len(pod.Spec.SchedulingGates) > 0, pod_status.Gated, pod_status.Pending)))),
+//@      ite(pod.Status.Phase == v1.PodSucceeded, pod_status.Succeeded, ite(pod.Status.Phase == v1.PodFailed, pod_status.Failed, pod_status.Unknown))))
+
+//@ func getTaskStatus
+//@   props C10 C19
+//@   requires pod != nil
+//@   pure
+//@   ensures result == taskStatusOf(pod, bindRequest != nil)
+//@   ensures [total] pod_status.isStatus(result)
+//@ end
+
+//@ import gr "github.com/NVIDIA/KAI-scheduler/pkg/binder/plugins/gpusharing/gpu-request"
+//@ import resource "k8s.io/apimachinery/pkg/api/resource"
+
+// the GPU part of the pod's request as the scheduler sees it
+// same float, NaN included (IEEE == is false on NaN)
+//@ define sameF(a real, b real) bool = a == b || (isnan(a) && isnan(b))
+//@ define gpuUnchanged(pi *PodInfo) bool = sameF(pi.ResReq.portion, old(pi.ResReq.portion)) && pi.ResReq.count == old(pi.ResReq.count) && pi.ResReq.gpuMemory == old(pi.ResReq.gpuMemory) && pi.ResReq.migResources == old(pi.ResReq.migResources) && pi.ResReq.draGpuCounts == old(pi.ResReq.draGpuCounts)
+
+//@ define gpuUnchanged0(pi *PodInfo) bool = sameF(pi.ResReq.portion, old(pi.ResReq.portion)) && pi.ResReq.count == old(pi.ResReq.count) && pi.ResReq.gpuMemory == old(pi.ResReq.gpuMemory) && pi.ResReq.migResources == old(pi.ResReq.migResources)
+
+// legacy MIG pods: an annotation named like a MIG resource replaces the GPU request.  Needed by
+// updatePodAdditionalFields: when no such annotation is applied the GPU request is untouched.
+//@ func (*PodInfo).updateLegacyMigResourceRequestFromAnnotations
+//@   props C19 C10
+//@   ieee
+//@   requires pi != nil && pi.Pod != nil && pi.ResReq != nil
+//@   modifies pi.ResReq.GpuResourceRequirement, pi.IsLegacyMIGtask
+//@   loop 1
+//@     invariant old(pi.IsLegacyMIGtask) ==> pi.IsLegacyMIGtask
+//@     invariant !pi.IsLegacyMIGtask ==> gpuUnchanged(pi)
+//@   ensures old(pi.IsLegacyMIGtask) ==> pi.IsLegacyMIGtask
+//@   ensures [untouched-without-mig-annotation] !pi.IsLegacyMIGtask ==> gpuUnchanged(pi)
+//@ end
+
+// ---- C19 agreement: scheduler's reading of the annotations -----------------------------------------
+//@ define sFracOk(pod *v1.Pod) bool = resources.pfOk(resources.fracStr(pod)) && !(resources.pfVal(resources.fracStr(pod)) <= 0.0) && !(resources.pfVal(resources.fracStr(pod)) > 1.0)
+//@ define sMemOk(pod *v1.Pod) bool = resources.piOk(resources.memStr(pod)) && resources.piVal(resources.memStr(pod)) > 0
+//@ define sCountUsed(pod *v1.Pod) bool = resources.hasCount(pod) && resources.countStr(pod) != "" && resources.piOk(resources.countStr(pod))
+// what admission / the binder plugin accept: gr.ValidateGpuRequests(pod) == nil is, by its proved
+// postcondition [exact], exactly this predicate
+//@ define admitted(pod *v1.Pod) bool = !gr.badCombination(pod) && gr.valuesWellFormed(pod)
+// the device count admission accepted (default 1)
+//@ define admittedCount(pod *v1.Pod) int = ite(resources.hasCount(pod), resources.piVal(resources.countStr(pod)), 1)
+
+//@ func (*PodInfo).updatePodAdditionalFields
+//@   props C19 C10 C12
+//@   ieee
+//@   requires pi != nil && pi.Pod != nil && pi.ResReq != nil
+//@   requires !pi.IsLegacyMIGtask && pi.VectorMap != nil && pi.ResourceRequestType == RequestTypeRegular   // as set by the constructor, its only caller
+//@   requires bindRequest != nil ==> bindRequest.BindRequest != nil
+//@   assume resources.piVal("") == 0 && resources.pfVal("") == 0.0
+//@   note strconv: ParseInt("")/ParseFloat("") return value 0 with ErrSyntax (documented); an absent annotation is read as ""
+//@   modifies pi.GPUGroups, pi.ResourceReceivedType, pi.ResReq.GpuResourceRequirement, pi.ResourceRequestType, pi.ResReqVector, pi.IsLegacyMIGtask
+// C19 (top level, agreement): "Every GPU request that admission accepts ... denotes a finite positive
+// quantity which the scheduler interprets as exactly that request".  (Legacy MIG annotations replace the
+// request altogether and are outside the property: clauses are stated for pods without one.)
+// Before fix 1c0b67c: red for "NaN" (portion NaN, count 0), for gpu-memory above MaxInt64 (scheduler saw no
+// GPU request) and for a device count above MaxInt64 (scheduler used 1).
+// C12 "charge GPU groups in every snapshot": while a BindRequest that selected GPU groups is alive, the
+// snapshot charges exactly those groups - whatever gpu-group labels the pod carries at that moment (the
+// binder labels one group per ReserveGpuDevice call, and a failed attempt may leave a stale label).
+//@   ensures [live-bindrequest-groups-win] bindRequest != nil && len(bindRequest.BindRequest.Spec.SelectedGPUGroups) > 0 ==> pi.GPUGroups == bindRequest.BindRequest.Spec.SelectedGPUGroups
+//@   ensures [agree-fraction] admitted(pi.Pod) && resources.hasFrac(pi.Pod) && !pi.IsLegacyMIGtask ==> pi.ResourceRequestType == RequestTypeFraction && isfinite(pi.ResReq.portion) && pi.ResReq.portion == resources.pfVal(resources.fracStr(pi.Pod)) && fval(pi.ResReq.portion) > 0.0 && fval(pi.ResReq.portion) < 1.0 && pi.ResReq.gpuMemory == 0
+//@   ensures [agree-memory] admitted(pi.Pod) && resources.hasMem(pi.Pod) && !pi.IsLegacyMIGtask ==> pi.ResourceRequestType == RequestTypeGpuMemory && pi.ResReq.gpuMemory == resources.piVal(resources.memStr(pi.Pod)) && pi.ResReq.gpuMemory >= 1 && pi.ResReq.portion == 0.0
+//@   ensures [agree-count] admitted(pi.Pod) && (resources.hasFrac(pi.Pod) || resources.hasMem(pi.Pod)) && !pi.IsLegacyMIGtask ==> pi.ResReq.count == admittedCount(pi.Pod) && pi.ResReq.count >= 1
+//@   ensures [agree-no-sharing] admitted(pi.Pod) && !resources.hasFrac(pi.Pod) && !resources.hasMem(pi.Pod) && !pi.IsLegacyMIGtask ==> gpuUnchanged0(pi) && pi.ResourceRequestType != RequestTypeFraction && pi.ResourceRequestType != RequestTypeGpuMemory
+// C19 (converse): what the scheduler treats as a sharing request carries a sharing annotation, hence is
+// subject to admission's checks (rejected when malformed: ValidateGpuRequests [exact]; rejected when GPU
+// sharing is disabled: (*GPUSharing).Validate [sharing-disabled]).
+//@   ensures [sharing-implies-annotation] pi.ResourceRequestType == RequestTypeFraction || pi.ResourceRequestType == RequestTypeGpuMemory ==> resources.hasFrac(pi.Pod) || resources.hasMem(pi.Pod)
+//@   ensures [sharing-type-fraction-wf] !pi.IsLegacyMIGtask && pi.ResourceRequestType == RequestTypeFraction && !admitted(pi.Pod) ==> gr.badCombination(pi.Pod) || !gr.valuesWellFormed(pi.Pod)
+// functional description of the scheduler's interpretation (helper level, from the code)
+//@   ensures [sched-fraction-single] !pi.IsLegacyMIGtask && sFracOk(pi.Pod) && !sCountUsed(pi.Pod) ==> sameF(pi.ResReq.portion, resources.pfVal(resources.fracStr(pi.Pod))) && pi.ResReq.count == ite(resources.pfVal(resources.fracStr(pi.Pod)) > 0.0, 1, 0) && pi.ResReq.gpuMemory == 0
+//@   ensures [sched-memory-single] !pi.IsLegacyMIGtask && !sFracOk(pi.Pod) && sMemOk(pi.Pod) && !sCountUsed(pi.Pod) ==> pi.ResReq.portion == 0.0 && pi.ResReq.count == 1 && pi.ResReq.gpuMemory == resources.piVal(resources.memStr(pi.Pod))
+// with a usable device count the raw parse results are taken, whatever they are
+//@   ensures [sched-multi] !pi.IsLegacyMIGtask && (sFracOk(pi.Pod) || sMemOk(pi.Pod)) && sCountUsed(pi.Pod) ==> sameF(pi.ResReq.portion, resources.pfVal(resources.fracStr(pi.Pod))) && pi.ResReq.count == resources.piVal(resources.countStr(pi.Pod)) && pi.ResReq.gpuMemory == resources.piVal(resources.memStr(pi.Pod))
+//@   ensures [sched-type-fraction] !pi.IsLegacyMIGtask && sFracOk(pi.Pod) ==> pi.ResourceRequestType == RequestTypeFraction
+//@   ensures [sched-type-memory] !pi.IsLegacyMIGtask && !sFracOk(pi.Pod) && sMemOk(pi.Pod) ==> pi.ResourceRequestType == RequestTypeGpuMemory
+//@   ensures [sched-not-sharing] !pi.IsLegacyMIGtask && !sFracOk(pi.Pod) && !sMemOk(pi.Pod) ==> gpuUnchanged0(pi) && (pi.ResourceRequestType == old(pi.ResourceRequestType) || pi.ResourceRequestType == RequestTypeMigInstance)
+//@ end
+
+// ---- requested by helper node (NodeInfo.AddTask/RemoveTask, C13) ---------------------------------------
+//@ declare isReservationPod(pod *v1.Pod) bool
+//@ func IsResourceReservationTask
+//@   props C01 C02 C14 C13
+//@   trusted
+//@   note reads pod.Labels and the process-wide config (conf.GetConfig takes a sync.Mutex: outside the subset); assumed a pure, deterministic function of the pod
+//@   requires pod != nil
+//@   pure
+//@   ensures result == isReservationPod(pod)
+//@ end
+
+//@ declare podKeyOf(pod *v1.Pod) string
+//@ func PodKey
+//@   props C01 C02 C14 C13
+//@   trusted
+//@   note clientcache.MetaNamespaceKeyFunc is external; assumed a pure, deterministic function of the pod (namespace/name)
+//@   requires pod != nil
+//@   pure
+//@   ensures result == podKeyOf(pod)
+//@ end
+
+//@ func (*PodInfo).Clone
+//@   props C01 C02 C14 C13
+//@   requires pi != nil && pi.ResReq != nil && pi.AcceptedResource != nil
+//@   fresh
+//@   ensures result != pi
+//@   ensures result.UID == pi.UID && result.Job == pi.Job && result.Name == pi.Name && result.Namespace == pi.Namespace && result.SubGroupName == pi.SubGroupName
+//@   ensures result.Status == pi.Status && result.Pod == pi.Pod && result.NodeName == pi.NodeName
+//@   ensures result.ResourceRequestType == pi.ResourceRequestType && result.ResourceReceivedType == pi.ResourceReceivedType && result.IsVirtualStatus == pi.IsVirtualStatus && result.IsLegacyMIGtask == pi.IsLegacyMIGtask
+//@   ensures len(result.GPUGroups) == len(pi.GPUGroups) && (forall i int :: 0 <= i && i < len(pi.GPUGroups) ==> result.GPUGroups[i] == pi.GPUGroups[i])
+//@   ensures result.ResReq != nil && result.AcceptedResource != nil && result.ResReq != pi.ResReq && result.AcceptedResource != pi.AcceptedResource
+//@   ensures result.VectorMap == pi.VectorMap
+//@   ensures [resreq-copied] result.ResReq.milliCpu == pi.ResReq.milliCpu && result.ResReq.memory == pi.ResReq.memory && result.ResReq.count == pi.ResReq.count && result.ResReq.portion == pi.ResReq.portion && result.ResReq.gpuMemory == pi.ResReq.gpuMemory
+//@   ensures [resreq-scalars-copied] forall k v1.ResourceName :: result.ResReq.scalarResources[k] == pi.ResReq.scalarResources[k] && (k in result.ResReq.scalarResources <==> k in pi.ResReq.scalarResources)
+//@   ensures [resreq-mig-copied] forall k v1.ResourceName :: result.ResReq.migResources[k] == pi.ResReq.migResources[k] && (k in result.ResReq.migResources <==> k in pi.ResReq.migResources)
+//@   ensures [resreq-dra-copied] forall k string :: result.ResReq.draGpuCounts[k] == pi.ResReq.draGpuCounts[k] && (k in result.ResReq.draGpuCounts <==> k in pi.ResReq.draGpuCounts)
+//@   ensures [accepted-copied] result.AcceptedResource.milliCpu == pi.AcceptedResource.milliCpu && result.AcceptedResource.memory == pi.AcceptedResource.memory && result.AcceptedResource.count == pi.AcceptedResource.count && result.AcceptedResource.portion == pi.AcceptedResource.portion && result.AcceptedResource.gpuMemory == pi.AcceptedResource.gpuMemory
+//@ end
+
+// ---- C10 (pods bullet): the constructor pieces are total on every pod -----------------------------------
+//@ func getPodResourceWithoutInitContainers
+//@   props C10 C19
+//@   requires pod != nil
+//@   fresh
+//@   loop 1
+//@     invariant -1 <= rangeindex && rangeindex < len(pod.Spec.Containers)
+//@     invariant podResourcesList != nil && fresh(podResourcesList)
+//@     invariant forall p *resource.Quantity :: old(allocated(p)) ==> *p == old(*p)
+//@   loop 2
+//@     invariant podResourcesList != nil && fresh(podResourcesList)
+//@     invariant forall p *resource.Quantity :: old(allocated(p)) ==> *p == old(*p)
+//@   ensures fresh(result.scalarResources) && fresh(result.migResources) && fresh(result.draGpuCounts)
+//@ end
+
+//@ func getPodResourceRequest
+//@   props C10 C19
+//@   requires pod != nil
+//@   fresh
+//@   loop 1
+//@     invariant -1 <= rangeindex && rangeindex < len(pod.Spec.InitContainers)
+//@     invariant result != nil && fresh(result) && fresh(result.scalarResources) && fresh(result.migResources) && fresh(result.draGpuCounts)
+//@   ensures fresh(result.scalarResources) && fresh(result.migResources) && fresh(result.draGpuCounts)
+//@   ensures [one-pod] result.scalarResources[resource_info.PodsResourceName] == 1
+//@ end
+
+// NewTaskInfoWithBindRequest / resourceClaimInfoFromPodClaims: not under contract.  Blockers (reported):
+// resource_info.ResourceClaimSliceToMap has no contract and (types.NamespacedName).String is an unmodelled
+// external; both havoc the heap, also inside loop 2 of resourceClaimInfoFromPodClaims.
+
+// (added by helper "alloc"; opt-in via `usestable`) the request type of a task is fixed by its constructor; task
+// slices handed around by the allocate path are not rewritten in place
+//@ stable PodInfo.ResourceRequestType
+//@ stable slicetype []*PodInfo
